@@ -291,11 +291,88 @@ def oracle(case, outcome, ctx):
             ctx.sample({"prefix": prefix, "pretext": case["pretext"][:5], "names": {str(k): v[:10] for k, v in names_of.items()}})
 
 
+# ---- CLI leg: one chromosome list file beside every curated assembly file that has chromosomes ------------
+CSV_SNAP = []
+
+
+def check_cli(cr, ctx):
+    from tola.assembly.scripts import pretext_to_asm as p2a
+    from vf import cli_runs
+    from vf.mon import contracts
+
+    def on_call(args, kwargs):
+        asms = args[2] if len(args) > 2 else kwargs["out_assemblies"]
+        CSV_SNAP.append([(a.name, bool(a.curated), [(s.rank, s.name) for s in a.scaffolds]) for a in asms.values()])
+
+    contracts.attach(p2a, "write_chr_csv_files", on_call=on_call, label="C10.write_chr_csv_files")
+    ctx.case()
+    CSV_SNAP.clear()
+    res = cli_runs.run_pretext_to_asm(cr, out_name="out.agp")
+    if res["exit_code"] != 0 or len(CSV_SNAP) != 1:
+        ctx.count("cli:error-exit")
+        return
+    case = cli_runs.case_of(cr)
+    ctx.nontrivial(case["files"])
+    files = cli_runs.output_files(cr)
+    seen_uncurated = False
+    for name, curated, scs in CSV_SNAP[0]:
+        chroms = [n for r, n in scs if r in (1, 2)]
+        if not curated:
+            seen_uncurated = True
+            continue
+        f = f"{name}.chromosome.list.csv"
+        if not chroms:
+            continue
+        ctx.count("cli:chromosome-lists-expected")
+        if seen_uncurated:
+            ctx.count("cli:chromosome-list-expected-after-a-set-aside-assembly")
+        if f not in files:
+            ctx.violation("chromosome-list-file-not-written", f"assembly {name} has chromosomes {chroms[:5]} but {f} is missing; files: {sorted(files)}", case)
+            return
+        got = [ln.split(",")[0] for ln in files[f].decode().splitlines() if ln.strip()]
+        if got != chroms:
+            ctx.violation("chromosome-list-file-lines", f"{f}: {got} expected {chroms}", case)
+            return
+    ctx.count("cli:ok")
+
+
+def run_cli(shard, ctx):
+    import os
+    from pathlib import Path
+
+    from vf import cli_runs
+    from vf.core import rng_for
+
+    base = Path(os.environ.get("VERIF_SHARD_SCRATCH", "."))
+    for i in range(shard["n"]):
+        rng = rng_for(shard["seed"], "c10cli", shard["index"], i)
+        k = i % 3
+        if k == 0:
+            cr = cli_runs.text_case(rng, base / f"c{i}", fmt="agp", tagged=True)
+        elif k == 1:
+            cr = cli_runs.text_case(rng, base / f"c{i}", fmt="agp", tagged=True, two_hap=True, primary=False)
+        else:
+            cr = cli_runs.text_case(rng, base / f"c{i}", fmt="agp", tagged=True, two_hap=True, unprefixed=True, primary=True)
+        try:
+            check_cli(cr, ctx)
+        finally:
+            cli_runs.cleanup(cr)
+
+
 def run(shard, ctx):
+    if shard["kind"] == "cli":
+        return run_cli(shard, ctx)
     workloads.run_remap_batch(shard, ctx, kinds=tuple(shard["kinds"]), oracle=oracle)
 
 
 def replay(case, ctx):
+    if case.get("kind") == "cli":
+        import os
+        from pathlib import Path
+
+        from vf import cli_runs
+
+        return check_cli(cli_runs.restore_case(case, Path(os.environ.get("VERIF_SHARD_SCRATCH", ".")) / "replay"), ctx)
     oracle(case, workloads.run_case(case), ctx)
 
 
@@ -303,6 +380,7 @@ def plan(tier, seed):
     n, per = (14, 1800) if tier == "quick" else (14, 25000)
     sh = [{"kind": "mem", "kinds": [["tag"], ["tag", "tag2"]][k % 2], "n": per} for k in range(n)]
     sh += [{"kind": "mem", "kinds": ["vanish"], "n": per} for _ in range(2)]
+    sh += [{"kind": "cli", "n": 60 if tier == "quick" else 600} for _ in range(4)]
     return sh
 
 
@@ -310,6 +388,8 @@ def gates(c, tier):
     need = {
         "naming-ok:tag": 1500,
         "second-call:compared": 1000,
+        "cli:chromosome-lists-expected": 100,
+        "cli:chromosome-list-expected-after-a-set-aside-assembly": 10,
         "naming-ok:tag2": 400,
         "autosomes:numbered": 3000,
         "cases:more-than-9-autosomes": 5,
